@@ -159,6 +159,17 @@ def build_layer(d, roots):
     if t == 'ram':
         return CacheToRam(d['names'], size=d.get('size'), impure=d.get('impure', False))
     if t == 'disk':
+        if d.get('impure'):
+            # CacheToDisk.simple has no `impure` argument: build the layer from its parts
+            from tarn import DiskDict, HashKeyStorage
+            from tarn.config import StorageConfig, init_storage
+            root = roots[d['root']]
+            index, storage = os.path.join(root, 'index'), os.path.join(root, 'storage')
+            if not os.path.exists(index):
+                os.makedirs(root, exist_ok=True)
+                init_storage(StorageConfig(hash='sha256', levels=[1, 31]), index)
+                init_storage(StorageConfig(hash='sha256', levels=[1, 31]), storage)
+            return CacheToDisk(index, HashKeyStorage(DiskDict(storage)), PickleSerializer(), d['names'], impure=True)
         return CacheToDisk.simple(*d['names'], root=roots[d['root']], serializer=PickleSerializer())
     if t == 'columns':
         from tarn import DiskDict, HashKeyStorage
